@@ -82,9 +82,9 @@ func c13RunTrk(t *testing.T, stats *VStats) {
 		keys[i] = c13TupleKey(i)
 		idx[keys[i]] = i
 	}
-	nseq := 120
+	nseq := 300
 	if VThorough() {
-		nseq = 1500
+		nseq = 6000
 	}
 	for seq := 0; seq < nseq; seq++ {
 		rr := r.Fork()
@@ -283,9 +283,9 @@ func c13RunDrn(t *testing.T, stats *VStats) {
 	s := VOpenStream("c13_drn")
 	defer s.Close()
 	r := NewVRand(VSeed() + 202)
-	nseq := 150
+	nseq := 300
 	if VThorough() {
-		nseq = 2000
+		nseq = 6000
 	}
 	for seq := 0; seq < nseq; seq++ {
 		tr := newControlPlaneDrainTracker()
@@ -395,9 +395,9 @@ func c13RunKey(t *testing.T, stats *VStats) {
 	s := VOpenStream("c13_key")
 	defer s.Close()
 	r := NewVRand(VSeed() + 303)
-	n := 4000
+	n := 8000
 	if VThorough() {
-		n = 60000
+		n = 150000
 	}
 	for i := 0; i < n; i++ {
 		src, dst := c13RandAP(r), c13RandAP(r)
